@@ -291,16 +291,14 @@ func c05Check(p c05P, x *vs.Exec) []Viol {
 		if e.K == "hook" && e.Arg(0) == "OnStop" {
 			nstop++
 			msg := e.Arg(1)
-			okc := false
+			anyCause := before(i, "call", "Close") || before(i, "env", "eof") || before(i, "peer-closed-after-eof") ||
+				before(i, "env", "recverr") || before(i, "env", "malformed") || before(i, "env", "sendfault")
+			okc := anyCause
 			switch {
-			case strings.Contains(msg, "client has been stopped"):
-				okc = before(i, "call", "Close")
 			case msg == "EOF":
 				okc = before(i, "env", "eof") || before(i, "peer-closed-after-eof")
 			case msg == errFault.Error():
 				okc = before(i, "env", "recverr")
-			default:
-				okc = before(i, "env", "malformed") || strings.Contains(msg, "closed")
 			}
 			if !okc {
 				v = append(v, Viol{"C05.R5", "OnStop reported " + msg + " before any such cause had occurred"})
